@@ -147,7 +147,7 @@ def _variants(sim: str, dim: int, tier: str) -> list[str]:
         laws = ["SVK", "NeoHookean"] if q else ["SVK", "NeoHookean", "MooneyRivlin"]
         return [f"{l}/{a}" for l in laws for a in ("static", "newmark")]
     if sim == "InElastic":
-        return (["vm_pe", "vm_ps"] if dim == 2 else ["vm"]) + ([] if q else ["elastic_only"])
+        return (["vm_pe", "vm_ps"] if dim == 2 else ["vm"]) + ["vm_step"] + ([] if q else ["elastic_only"])
     if sim == "WeakForms":
         return [f"dof{n}" for n in range(dim, 0, -1)]  # first variant = the one advertising the most names
     raise KeyError(sim)
@@ -711,26 +711,56 @@ def build_InElastic(case, mesh):
     E, nu = 2.3, 0.28
     el = Models.Elastic.Isotropic(3, E=E, v=nu)
     ps = var == "vm_ps"
+    step = var == "vm_step"
     if var == "elastic_only":
         beh = Models.InElastic.Behavior(dim, el, thickness=0.7)
     else:
-        beh = Models.InElastic.Behavior(dim, el, Models.InElastic.Yield.VonMises(50.0),
-                                        Models.InElastic.IsotropicHardening.Linear(0.2), thickness=0.7, planeStress=ps)
+        # generic states stay inside the elastic domain (yield stress far above the stresses of the state) except in the
+        # 'vm_step' variant, where a real plastic load step is solved and committed first
+        beh = Models.InElastic.Behavior(dim, el, Models.InElastic.Yield.VonMises(0.05 if step else 50.0),
+                                        Models.InElastic.IsotropicHardening.Linear(0.3), thickness=0.7, planeStress=ps)
     simu = Simulations.InElastic(mesh, beh)
     Nn = mesh.Nn
+    groups = mesh.Get_list_groupElem()
+    ntr = 1
+    epsp = {g.elemType: 0.0 for g in groups}
+    pvals = {g.elemType: np.zeros((g.Ne, 1)) for g in groups}
+    if step:
+        nodes = np.asarray(mesh.nodes, dtype=int)
+        cl, ld = _clamp_and_load_nodes(np.asarray(mesh.coord), nodes)
+        unk = simu.Get_unknowns()
+        simu.add_dirichlet(cl, [0.0] * dim, unk)
+        simu.add_dirichlet(ld, [0.08], ["x"])
+        try:
+            simu.Solve()
+        except AssertionError as err:
+            return simu, None, [], 0, f"load step did not converge: {str(err)[:60]}"
+        simu.Save_Iter()
+        ntr += 2
+        saved = simu.Get_results(-1)["state"]
+        slots = beh.layout.slots
+        sl_p = [sl for nm, sl in slots.items() if str(getattr(nm, "value", nm)) == "p"][0]
+        sl_e = [sl for nm, sl in slots.items() if str(getattr(nm, "value", nm)) == "eps_p"][0]
+        for g in groups:
+            z = np.asarray(saved[g.elemType], dtype=float)
+            pvals[g.elemType] = z[..., sl_p.start]
+            epsp[g.elemType] = km2t(z[..., sl_e])  # plastic strain, 6D Kelvin-Mandel -> tensor
     u, v, a = state_vectors(case, Nn * dim, 0.1)
     simu._Set_solutions(simu.problemType, u, v, a)
     simu.Need_Update()
-    groups = mesh.Get_list_groupElem()
     table = {}
     U = u.reshape(Nn, dim)
     kinematic_table(table, None, U, ["x", "y", "z"][:dim], "u", "displacement", "displacement_norm", "displacement_matrix")
-    # virgin committed state: the stress of a given total strain is the elastic one; scalar internal variables are zero
-    _elastic_like_tables(table, mesh, groups, U, dim, lambda g, e: _iso_stress(e, dim, E, nu, ps), 1.0, MatrixType.rigi, with_energy=False)
+
+    # the stress of a given total strain at the committed state is the elastic one of (eps - eps_p); no flow is triggered by reading it
+    def law(g, e3):
+        return _iso_stress(e3 - epsp[g.elemType], dim, E, nu, ps)
+
+    _elastic_like_tables(table, mesh, groups, U, dim, law, 1.0, MatrixType.rigi, with_energy=False)
     for name, slot in beh.layout.slots.items():
         if slot.stop - slot.start == 1:
-            table[str(getattr(name, "value", name))] = Spec("elem", np.zeros(mesh.Ne), 1.0)
-    return simu, table, [], 1
+            table[str(getattr(name, "value", name))] = Spec("elem", np.concatenate([pvals[g.elemType].reshape(g.Ne, -1).mean(axis=1) for g in groups]), 1e-3)
+    return simu, table, [], ntr
 
 
 # ---- beams -------------------------------------------------------------------------------------
@@ -868,9 +898,11 @@ def _run_results(case):
     if sim != "Beam":
         mesh, _ = build_mesh(case["mesh"])
     with _quiet():
-        simu, table, v, ntr = BUILDERS[sim](case, mesh)
+        built = BUILDERS[sim](case, mesh)
+    simu, table, v, ntr = built[:4]
     if table is None:
-        return {"violations": [], "skipped": "generic state inverts an element (det F <= 0.05)", "fingerprint": "guard", "nontrivial": False}
+        reason = built[4] if len(built) > 4 else "generic state inverts an element (det F <= 0.05)"
+        return {"violations": [], "skipped": reason, "fingerprint": "guard", "nontrivial": False, "outcome": "skipped"}
     mesh = simu.mesh
     Nn, Ne = mesh.Nn, mesh.Ne
     groups = mesh.Get_list_groupElem()
